@@ -128,7 +128,7 @@ var (
 	OptStatesCap  = 1 << 20
 	OptPoolChoice = false
 	OptMaxSteps   = 20000
-	OptWatchdog   = 120 * time.Second
+	OptWatchdog   = 300 * time.Second
 )
 
 type abortT struct{}
